@@ -211,7 +211,7 @@ func c11RacePass(c *vlib.Ctx, rounds int) {
 		job, _ := json.Marshal(map[string]interface{}{"Scenario": names[i], "Rounds": rounds})
 		cmd := exec.Command(bin, "worker", "c11free")
 		logp := filepath.Join(dir, fmt.Sprintf("race-%d", i))
-		cmd.Env = append(os.Environ(), "GOMAXPROCS=16", "GORACE=halt_on_error=0 history_size=2 log_path="+logp)
+		cmd.Env = append(os.Environ(), "GOMAXPROCS=16", "VERIF_NO_ASLIMIT=1", "GORACE=halt_on_error=0 history_size=2 log_path="+logp)
 		cmd.Stdin = strings.NewReader(string(job) + "\n")
 		cmd.Run()
 		files, _ := filepath.Glob(logp + ".*")
